@@ -266,12 +266,9 @@ func headerString(f *Func) string {
 	if f.Comdat != nil {
 		// The comdat name is omitted when it is the name of the function itself
 		// (the name, not its display form: Name() returns all-digit names in
-		// quotes); the parser reads a bare `comdat` the same way.
-		implicit := f.GlobalName
-		if f.IsUnnamed() {
-			implicit = f.Name()
-		}
-		if f.Comdat.Name == implicit {
+		// quotes). An unnamed function has no implicit comdat (LLVM: "comdat
+		// cannot be unnamed"), its comdat is always spelled out.
+		if !f.IsUnnamed() && f.Comdat.Name == f.GlobalName {
 			buf.WriteString(" comdat")
 		} else {
 			fmt.Fprintf(buf, " %s", f.Comdat)
